@@ -2,6 +2,7 @@ package sim
 
 import (
 	"fmt"
+	"os"
 	"sort"
 	"strings"
 	"time"
@@ -43,11 +44,11 @@ func (c14) Assumptions() []string {
 func genReplicas(r *Rng, n int) []Replica {
 	hist := canonicalReplica
 	hist.History = true
-	reps := []Replica{canonicalReplica, {Mode: "reverse", Clock: 1_500_000_123, Rand: 99, Sched: r.Uint64() | 1, Procs: 1, Preempt: 10}, hist}
+	reps := []Replica{canonicalReplica, {Mode: "reverse", Clock: 1_500_000_123, Rand: 99, Sched: r.Uint64() | 1, Procs: 1, Preempt: 10, Rate: 20_000_000}, hist}
 	n++
 	for i := 2; i < n; i++ {
 		rep := Replica{Mode: "random", Seed: r.Uint64(), Clock: 1_600_000_000 + int64(r.Intn(1_000_000)), Rand: int64(r.Uint64() >> 1),
-			Sched: r.Uint64() | 1, Procs: Pick(r, []int{1, 4, 16}), Preempt: Pick(r, []int{0, 20, 50})}
+			Sched: r.Uint64() | 1, Procs: Pick(r, []int{1, 4, 16}), Preempt: Pick(r, []int{0, 20, 50}), Rate: Pick(r, []int64{0, 50, 300_000, 5_000_000})}
 		if i == 3 {
 			rep.Mode, rep.Rot = "rotate", 1+r.Intn(3)
 		}
@@ -89,12 +90,27 @@ func genC14(r *Rng, tier string) *Scenario {
 				p = Pick(r, []string{"{{ a0.shuffle().len() }}{{ a0 }}{{ a0.join('-') }}", "{{ a1.shuffle().len() }}@each(x in a1)[{{ x }}]@end", "{{ (a0.rand() == a0.rand()) ? 7 : 7 }}{{ a0 }}", "{{ t9 = [5, 6, 7, 8] }}{{ t9.shuffle().len() }}{{ t9 }}"})
 			case k < 8 && g.FailBias > 0:
 				p = "{{ " + g.FailExpr() + " }}"
+			case k < 9 && r.Chance(30):
+				// an all-literal object whose entries are prefix operators on literals of the wrong type
+				p = Pick(r, []string{`{{ {a: 1, width: -"10", hidden: !"no", s: "x"} }}`, `{{ {k: -true, m: !1, z: -"s", n: 2} }}`, `@dump({p: !"a", q: -"b", r: -false})`})
+			case k < 9 && r.Chance(25):
+				// inputs on which the pinned evaluator panics (integer % 0, dot on a non-object, @each over
+				// a string): whatever the caller sees, it must be the same in every replica
+				p = "<p>before</p>" + Pick(r, []string{"{{ 7 % z0 }}", `{{ "a".x }}`, "{{ n1.y }}", "@each(x in s0){{ x }}@end"})
+			case k < 9 && r.Chance(10):
+				// a loop long enough for anything that watches the clock
+				p = "@for(i = 0; i < 2600; i++).@end<i>done</i>"
 			default:
 				p = g.Stmt(2)
 			}
 			sc.Parts = append(sc.Parts, p)
 		}
 		sc.Ops = []Op{{Kind: "evalstr", Src: strings.Join(sc.Parts, ""), Data: data}}
+		if r.Chance(25) {
+			// the string API reads the process-wide configuration: evaluate with debug mode on
+			sc.Files = []File{{Path: "/srv/app/templates/only.tw", Data: "<p>only</p>", Role: "page"}}
+			sc.Ops = append([]Op{{Kind: "newtemplate", Cfg: &Cfg{Dir: "templates", Ext: ".tw", Debug: true}}}, sc.Ops...)
+		}
 	case c < 55:
 		// data maps with several unsupported values / the reserved name
 		sc.Family = "baddata"
@@ -122,7 +138,7 @@ func genC14(r *Rng, tier string) *Scenario {
 		sc.Ops = []Op{{Kind: "evalstr", Src: strings.Join(sc.Parts, ""), Data: data}}
 	default:
 		sc.Family = "tree"
-		o := TreeOpts{ObjBias: 50, Debug: r.Chance(50), ObjFail: true}
+		o := TreeOpts{ObjBias: 50, Debug: r.Chance(50), ObjFail: true, ArgClash: r.Chance(30)}
 		if r.Chance(30) {
 			o.FailBias = 40
 		}
@@ -202,7 +218,7 @@ func execC14(sc *Scenario, rep Replica) c14Exec {
 		before[id] = st.Multi
 	}
 	simrt.SetOrder(rep.Policy())
-	simrt.SetClock(&simrt.Clock{Base: timeUnix(rep.Clock)}, rep.Rand)
+	simrt.SetClock(&simrt.Clock{Base: timeUnix(rep.Clock), Rate: rep.Rate}, rep.Rand)
 	procs := rep.Procs
 	if procs == 0 {
 		procs = 2
@@ -217,6 +233,11 @@ func execC14(sc *Scenario, rep Replica) c14Exec {
 		o := w.RunOp(op, Budget)
 		ex.obs = append(ex.obs, o)
 		ex.steps += o.Steps
+	}
+	if os.Getenv("TWSIM_DEBUG") != "" {
+		for i, o := range ex.obs {
+			fmt.Fprintf(os.Stderr, "debug: replica %+v op %d steps=%d clockreads=%d: %s\n", rep, i, o.Steps, simrt.ClockReads(), o.Short())
+		}
 	}
 	ex.hash = simrt.OrderHash
 	logEvent(fmt.Sprint("order", ex.hash))
@@ -459,7 +480,7 @@ func (p c14) signature(sc *Scenario, ri, d int) string {
 	// clock / PRNG?
 	rep := sc.Replicas[ri]
 	cand := canonicalReplica
-	cand.Clock, cand.Rand = rep.Clock, rep.Rand
+	cand.Clock, cand.Rand, cand.Rate = rep.Clock, rep.Rand, rep.Rate
 	if dd, _, _, _ := c14Diverges(sc, cand); dd >= 0 {
 		return "clock-or-prng"
 	}
@@ -473,7 +494,7 @@ func (p c14) minimise(orig *Scenario, ri, d int, v *Violation) *Violation {
 	sig := ""
 	// 1. explain by earlier history alone, by clock/PRNG alone, or by a single site
 	cand := canonicalReplica
-	cand.Clock, cand.Rand = rep.Clock, rep.Rand
+	cand.Clock, cand.Rand, cand.Rate = rep.Clock, rep.Rand, rep.Rate
 	hcand := canonicalReplica
 	hcand.History = true
 	scand := canonicalReplica
@@ -515,11 +536,11 @@ func (p c14) minimise(orig *Scenario, ri, d int, v *Violation) *Violation {
 		}
 	}
 	// 3. string scenarios: drop parts
-	if len(sc.Parts) > 1 && len(sc.Ops) == 1 && sc.Ops[0].Kind == "evalstr" {
+	if last := len(sc.Ops) - 1; len(sc.Parts) > 1 && last >= 0 && sc.Ops[last].Kind == "evalstr" {
 		for i := len(sc.Parts) - 1; i >= 0 && len(sc.Parts) > 1; i-- {
 			t := sc.Clone()
 			t.Parts = append(append([]string{}, sc.Parts[:i]...), sc.Parts[i+1:]...)
-			t.Ops[0].Src = strings.Join(t.Parts, "")
+			t.Ops[last].Src = strings.Join(t.Parts, "")
 			if still(t) {
 				sc = t
 			}
